@@ -32,6 +32,18 @@ ASSUMPTIONS = ["every command - dry runs included - ends abnormally: the forked 
                "the scratch directory of the children (tempfile.tempdir) lies outside the stacks",
                "remove: table files declare no dependencies, so the recursive collection is the product itself"]
 
+# the functions the model mirrors (harness/fingerprint.py): a changed fingerprint makes the quick tier run with the thorough case budget
+MIRRORS = [
+    ('python/eups/Eups.py', 'Eups.declare'),
+    ('python/eups/Eups.py', 'Eups.undeclare'),
+    ('python/eups/Eups.py', 'Eups.unassignTag'),
+    ('python/eups/Eups.py', 'Eups.assignTag'),
+    ('python/eups/Eups.py', 'Eups.remove'),
+    ('python/eups/Eups.py', 'Eups._remove'),
+    ('python/eups/utils.py', 'copyfile'),
+    ('python/eups/utils.py', 'isSubpath'),
+]
+
 WORKERS = c06.WORKERS
 DRYABLE = ("declare", "undeclare", "unassignTag", "remove")
 
